@@ -398,7 +398,7 @@ pub fn gen_dhcp_reply(src: &mut Src, env: &mut Env, msg: Option<u8>, proper: boo
         b[2] = *src.pick(&[0u8, 16, 255]);
     }
     b.extend_from_slice(&if proper || src.chance(31, 32) { [0x63, 0x82, 0x53, 0x63] } else { [0x63, 0x82, 0x53, 0x64] });
-    let mut opt = |b: &mut Vec<u8>, k: u8, d: &[u8]| {
+    let opt = |b: &mut Vec<u8>, k: u8, d: &[u8]| {
         b.push(k);
         b.push(d.len() as u8);
         b.extend_from_slice(d);
